@@ -24,9 +24,13 @@ impl MassProperties {
                 vertices[idx[2] as usize],
             );
 
-            // TODO: is the parallel axis theorem correctly applied here?
+            // `unit_angular_inertia` is relative to the triangle's first vertex: move it
+            // to the triangle's center, then to the center of mass of the whole mesh
+            // (parallel axis theorem).
             let area = triangle.area();
-            let ipart = triangle.unit_angular_inertia();
+            let center = triangle.center();
+            let ipart = triangle.unit_angular_inertia() - (center - triangle.a).norm_squared()
+                + (center - com).norm_squared();
             itot += ipart * area;
         }
 
